@@ -229,6 +229,50 @@ def run(chk, facts):
     chk.rule("R-C20-6", "no element is dropped before it is compared: every zip/take/skip in the checker is length-guarded or reviewed (shared census)")
     from .quant import truncation_census
     truncation_census(chk, facts, "R-C20-6")
+    # ---------------- R-C20-7 ----------------
+    # Name::union absorbs a None member into `T?`, as_direct drops the nullable flag, as_nullable adds it: wherever one of them is applied, the
+    # assignability relation is computed on a *changed* name.  Their call sites (MIR, resolved callees, attributed to the owning function) are the
+    # reviewed ones below; a new site - e.g. a type parameter bound to the union of a tuple's elements during class lookup - is reported.
+    chk.rule("R-C20-7", "operations that merge or drop nullability (Name::union, as_direct, as_nullable) occur only at the reviewed sites")
+    import re as _re
+    from .common import owner_root
+    mir = facts.mir
+    NULLOPS = _re.compile(r"(check::name::Name as check::name::Union<.*>>::union$|as check::name::Nullable>::as_nullable$|check::name::Name::as_direct$)")
+    REVIEWED_NULL = {
+        ("<check::context::clss::Class as check::context::clss::HasParent<&check::name::Name>>::has_parent", "as_direct"): (1, "ancestry is decided per class; the nullable flag is compared by Name::is_superset_of before any class is looked at (R-C06-1)"),
+        ("<check::name::Name as check::name::ColType>::col_type", "union"): (1, "the element type of a union of collections is the union of their element types: a None element stays visible as `?`"),
+        ("<check::name::Name as check::name::Nullable>::as_nullable", "as_nullable"): (1, "as_nullable of a union is member-wise"),
+        ("<check::name::Name as std::convert::From<&std::collections::HashSet<check::name::Name>>>::from", "union"): (1, "the definition of a union built from a set of names"),
+        ("<check::name::string_name::StringName as check::name::ColType>::col_type", "union"): (1, "iterating a tuple yields any of its elements: their union, a None element stays visible as `?`"),
+        ("<check::name::string_name::StringName as check::name::Substitute>::substitute", "as_direct"): (1, "a type variable is replaced by the class(es) bound to it; the flags of the place it stands in are kept by TrueName::substitute"),
+        ("<check::name::string_name::StringName as generate::name::ToPy>::to_py", "union"): (1, "rendering of `Union[..]` (after the check)"),
+        ("check::constrain::generate::collection::gen_coll", "union"): (3, "the element type of a collection literal is the union of the types of its elements"),
+        ("check::constrain::unify::finished::Finished::push_ty", "union"): (1, "a position that was given two types has their union"),
+        ("check::name::match_name", "union"): (1, "destructuring a union of tuples: per position the union of the alternatives"),
+        ("check::name::true_name::generic::<impl std::convert::TryFrom<&parse::ast::AST> for check::name::true_name::TrueName>::try_from", "as_nullable"): (1, "`T?` written in the source"),
+    }
+    got_n = {}
+    locs_n = {}
+    for b_ in mir.fns.values():
+        if "::tests::" in b_.path or not b_.file.startswith("src/"):
+            continue
+        for bb_, t_ in b_.calls():
+            if NULLOPS.search(t_.callee):
+                k_ = (owner_root(mir, facts.syn, b_.path), t_.callee.split("::")[-1])
+                got_n[k_] = got_n.get(k_, 0) + 1
+                locs_n.setdefault(k_, f"{b_.file}:{t_.line}")
+    for k_, cnt in sorted(got_n.items()):
+        rev = REVIEWED_NULL.get(k_)
+        ok = rev is not None and cnt <= rev[0]
+        chk.ob("R-C20-7", f"nullop:{k_[0]}|{k_[1]}", ok, f"{k_[0]}: {k_[1]} x{cnt} - reviewed: {rev[1]}" if ok else
+               f"{k_[0]} applies `{k_[1]}` to a type name ({cnt} site(s), {rev[0] if rev else 0} reviewed): the union absorbs a None member into `T?` and as_direct drops the flag again, "
+               "so what is compared afterwards is not the type that was written - None (or an unrelated class) can become assignable", locs_n[k_])
+    chk.floor("R-C20-7", len(got_n), 8, "functions that merge or drop nullability")
+    # the relation as the checker applies it: unify_type accepts exactly on is_superset_of (or Any as the *whole* type) - shared with C05 / C06
+    from . import c05, c06
+    from .common import borrow
+    borrow(chk, facts, c06, ("R-C06-2|unify_type",), {"R-C06-2": "unify_type accepts a pair of types exactly when the left is a superset of the right, or one of them is Any as a whole (shared with C06)"})
+    borrow(chk, facts, c05, ("R-C05-4|",), {"R-C05-4": "unify_type asks the relation in the direction parent >= child (shared with C05)"})
     chk.assume("transitivity through the parent graph and generics, the tuple special case and associativity of union around None are not decided (ND)")
     chk.notes.append("C20: the relation extracted from the source is model-checked on a finite universe by evaluating the extracted formula (the code is not run).")
 
